@@ -111,7 +111,8 @@ pub async fn request_certificate(
 		let new_order = NewOrder::new(&cert.identifiers);
 		let new_order = serde_json::to_string(&new_order)?;
 		let data_builder = set_data_builder!(account_s, endpoint_name, new_order.as_bytes()).await;
-		match http::new_order(&mut *(endpoint_s.write().await), &data_builder).await {
+		let res = http::new_order(&mut *(endpoint_s.write().await), &data_builder).await;
+		match res {
 			Ok((order, order_url)) => {
 				if let Some(e) = order.get_error() {
 					cert.warn(&e.prefix("Error").message);
